@@ -403,13 +403,20 @@ impl PartitionStorage for FilePartitionStorage {
                     )
                 })
                 .map_err(|_| IggyError::CannotReadFile)?;
-            let offset = file
-                .read_u64_le()
-                .await
-                .with_error_context(|error| {
-                    format!("{COMPONENT} (error: {error}) - failed to read consumer offset from file, path: {path}")
-                })
-                .map_err(|_| IggyError::CannotReadFile)?;
+            let offset = match file.read_u64_le().await {
+                Ok(offset) => offset,
+                Err(error) if error.kind() == std::io::ErrorKind::UnexpectedEof => {
+                    // The server died while this offset was being stored for the first time: the
+                    // file is empty or torn. It holds no value yet and must not make the whole
+                    // partition unloadable.
+                    warn!("Ignoring the incomplete consumer offset file: {path}.");
+                    continue;
+                }
+                Err(error) => {
+                    error!("{COMPONENT} (error: {error}) - failed to read consumer offset from file, path: {path}");
+                    return Err(IggyError::CannotReadFile);
+                }
+            };
 
             consumer_offsets.push(ConsumerOffset {
                 kind,
